@@ -8,6 +8,16 @@ from common import Rng
 import pytrs
 from pytrs.parser.tract.aliquot_parse import parse_aliquot
 
+
+def safely(rep, what, f, *a):
+    """run one oracle check; an exception escaping the library is itself a failing input for the observables"""
+    try:
+        return f(rep, *a)
+    except Exception as e:  # noqa
+        rep.violation('failing-input', {'check': what, 'args': [str(x)[:300] for x in a], 'why': f'raised {type(e).__name__}: {e}'})
+        return None
+
+
 RULE = ("exhaustive component chains up to length L (3 quick / 5 thorough) x qq_depth_min 1..3 x qq_depth_max in "
         "{None, min..min+2} x break_halves, plus random chains up to length 10 and qq_depth; non-trivial = chain of "
         "length >= 2; distinct by (chain, settings)")
